@@ -161,11 +161,16 @@ TEXTS = {
                   'subgraph, none of their op-id maps and none of their signatures; the shared opcode table only grows so '
                   'indices already in use keep their meaning; with model-wide unique names the global name-keyed '
                   'tensor-info map returns, for every tensor, the producer/consumers computed from its OWN subgraph (and a '
-                  'counterexample shows the uniqueness contract is needed). End-to-end oracle: subgraph i of '
+                  'counterexample shows the uniqueness contract is needed); WHOLE-RUN: the performer, the instruction '
+                  'generator AND the params generator (one result dict and one statistics dict keyed by name for the whole '
+                  'model) are each proved per subgraph, and composed: plan entries, instructions and resulting subgraph k of '
+                  'the whole model equal those of the model consisting of k alone, for every recipe state and all statistics. '
+                  'End-to-end oracle: subgraph i of '
                   'quantize(M) equals subgraph 0 of quantize(extract_i(M)) structurally and by constant content, on '
                   'generated multi-signature models; correspondences P and I/T/E run on the same multi-subgraph models.'),
-        'note': ('Plan-generation locality is validated (correspondence P + oracle), not proved. Shared buffers: C15. '
-                 'Axioms: none.'),
+        'note': ('The buffer-sharing check between plan and instruction generation is cross-subgraph by nature (C15) and '
+                 'outside the stand-alone theorem; the theorem takes ONE parameter classification for both sides (as parameter '
+                 'values are in the code). Axioms: none.'),
     },
     'C14': {
         'level': ('Theorem (all histories of add/load/get/need_calibration on two recipe managers, all models, matchers, '
